@@ -385,7 +385,9 @@ def _judge(case, rt, reps, perturb, S):
     if n3 != nl:
         probs.append("refine_assigned(label %d, others %d): npk=%d, definition %d" % (lsel, loth, n3, nl))
     nlb = int(case.get("nlb", 0))
-    if nlb:
+    # (the count-only second call concerns non-finite peaks; in label patterns of the thorough scope a FINITE peak can be
+    #  raw-labelled without being in the specification's labelled set, which the first call above already covers)
+    if nlb and (any(p.get("bad") for p in pk) or case.get("ub", "none") != "none"):
         # the raw label pattern: non-finite peaks carry the label too; the count is the number of labelled peaks (the
         # sums of the definition are not numbers then: nothing else is demanded)
         lraw = np.tile(np.array([lsel if (p["lab"] or (p.get("bad") and labraw(case, i)))
